@@ -490,6 +490,87 @@ def rule7(P, rep, apis):
     rep.floor('C14.7-LAZY', 1)
 
 
+def rule1b(P, rep, apis):
+    """C14.1b-NESTED: caller-owned metadata.  svt_metadata_array_alloc(n) hands out n NULL slots, and every public metadata
+    function tolerates them; the library's own deep copy (copy_metadata_buffer) dereferences each slot unchecked.  So either the
+    copy checks the slot, or the API entry detaches the caller's array before the copy (today: p_buffer->metadata = NULL).  For
+    each API function that hands its EbBufferHeaderType parameter to code reaching an unchecked slot dereference, the detaching
+    store must dominate the call."""
+    ARR = 'SvtMetadataArray.metadata_array'
+    arr_ids = [k for r in P.records.values() for k in [r['name'] + '.metadata_array'] if any(fd['n'] == 'metadata_array' for fd in r.get('fields', ()))]
+    if not arr_ids:
+        raise AnalysisBroken('no record with a metadata_array member')
+    unchecked = set()
+    summ = set()          # (function key, parameter index): metadata slots reachable from that parameter are dereferenced unchecked
+    for g in P.fns:
+        if g.nocfg or g.lib != 'Encoder':
+            continue
+        pidx = {pn: i for i, (pn, pt) in enumerate(g.params)}
+        slot_locals = {}
+        for ev in g.events(('decl', 'st')):
+            e = ev.get('e')
+            if e is None:
+                continue
+            name, rhs = (ev['n'], e) if ev['k'] == 'decl' else ((strip(e[2])[1], e[3]) if e[0] == 'a' and e[1] == '=' and strip(e[2])[0] == 'v' else (None, None))
+            r = strip(rhs) if rhs is not None else None
+            if name and r and r[0] == 'i' and last_field(strip(r[1])) in arr_ids:
+                rt = root_of(r)
+                slot_locals[name] = rt[1] if rt is not None else None
+        for ev in g.events():
+            e = ev.get('e')
+            if e is None:
+                continue
+            for x in subexprs(e):
+                if x[0] == 'm' and x[2]:
+                    b = strip(x[3])
+                    is_slot = (b[0] == 'v' and b[1] in slot_locals) or (b[0] == 'i' and last_field(strip(b[1])) in arr_ids)
+                    if not is_slot:
+                        continue
+                    guarded = any(c is not None and ((b[0] == 'v' and any(y[0] == 'v' and y[1] == b[1] for y in subexprs(c))) or (b[0] == 'i' and pstr(b) in pstr(strip(c))))
+                                  for k, c, l in g.ctl_chain(ev))
+                    if not guarded:
+                        unchecked.add(g)
+                        rootname = slot_locals.get(b[1]) if b[0] == 'v' else (root_of(b)[1] if root_of(b) is not None else None)
+                        if rootname in pidx:
+                            summ.add((g.key, pidx[rootname]))
+    ch = True
+    while ch:
+        ch = False
+        for h in P.fns:
+            if h.nocfg or h.lib != 'Encoder':
+                continue
+            pidx = {pn: i for i, (pn, pt) in enumerate(h.params)}
+            for ev, nm in h.calls():
+                if not nm:
+                    continue
+                for t in P.resolve(nm, h):
+                    for i, a in enumerate(ev['e'][2]):
+                        a = strip(a)
+                        if (t.key, i) in summ and a and a[0] == 'v' and a[1] in pidx and (h.key, pidx[a[1]]) not in summ:
+                            summ.add((h.key, pidx[a[1]])); ch = True
+    n = 0
+    for f in apis:
+        bufs = [pn for pn, pt in f.params if 'EbBufferHeaderType' in pt and pt.count('*') == 1]
+        for pn in bufs:
+            for ev, nm in f.calls():
+                if not nm:
+                    continue
+                if not any((t.key, i) in summ for t in P.resolve(nm, f) for i, a in enumerate(ev['e'][2]) if strip(a) and strip(a)[0] == 'v' and strip(a)[1] == pn):
+                    continue
+                n += 1
+                det = [s_ for s_ in f.events(('st',)) if s_['e'][0] == 'a' and s_['e'][1] == '=' and last_field(strip(s_['e'][2])) == 'EbBufferHeaderType.metadata' and
+                       root_of(strip(s_['e'][2])) is not None and root_of(strip(s_['e'][2]))[1] == pn and strip(s_['e'][3])[0] == 'l' and strip(s_['e'][3])[1] == 0]
+                ok = any(f.ev_dominates(s_, ev) for s_ in det)
+                rep.ob('C14.1b-NESTED', '%s/%s->%s' % (f.name, pn, nm), ok, f.loc(ev),
+                       ('the metadata array of the caller is detached before %s, which reaches an unchecked slot dereference (%s)' % (nm, sorted(g.name for g in unchecked)[0])) if ok else
+                       ('%s hands the buffer of the caller to %s, which reaches %s: each metadata slot is dereferenced without a NULL test, and a slot left empty by svt_metadata_array_alloc crashes the call' %
+                        (f.name, nm, sorted(g.name for g in unchecked)[0])))
+    if unchecked and not n:
+        rep.note('unchecked metadata slot dereferences exist (%s) but no API function hands them a caller buffer' % sorted(g.name for g in unchecked))
+    rep.ob('C14.1b-NESTED', 'slot-dereferences', True, 'Source/Lib/Encoder', '%d function(s) dereference metadata slots unchecked: %s; %d API hand-over(s) examined' % (len(unchecked), sorted(g.name for g in unchecked), n), nontrivial=bool(unchecked))
+    rep.floor('C14.1b-NESTED', 1)
+
+
 def run(P, rep, tier):
     apis = api_functions(P)
     if len(apis) < 20:
@@ -512,6 +593,7 @@ def run(P, rep, tier):
     rule5(P, rep)
     rule6(P, rep, apis)
     rule7(P, rep, apis)
+    rule1b(P, rep, apis)
     rep.floor('C14.1-NULLDOM', 30)
     rep.floor('C14.2-PAIR', 1)
     rep.floor('C14.3-BOUND', 5)
